@@ -130,6 +130,9 @@ type locksetEngine struct {
 	seenAccess map[string]string
 	// guarded package-level variables: "pkg.name" -> spec
 	byGlobal map[string]*guardSpec
+	// extra: treat an arbitrary instruction as an access to a pseudo-field that needs a lock
+	// (e.g. "storage write" or "grant privilege" must happen under the state's write lock)
+	extra func(fn *ssa.Function, ins ssa.Instruction) (fkey, lock, access string, ok bool)
 }
 
 func newLocksetEngine(w *World, guards []*guardSpec) *locksetEngine {
@@ -853,6 +856,20 @@ func rootsAt(v ssa.Value, root ssa.Value, depth int) bool {
 
 // checkAccess: classify ins as a guarded-field access and check the lock.
 func (e *locksetEngine) checkAccess(fn *ssa.Function, ins ssa.Instruction, st *flowState, out *lockSummary) {
+	if e.extra != nil {
+		if fkey, lock, access, ok := e.extra(fn, ins); ok {
+			e.accesses++
+			e.seenAccess[fkey+"|"+access+"|"+fname(fn)] = e.w.PosOf(ins)
+			need := modeR
+			if access == "write" {
+				need = modeW
+			}
+			if have := st.held[lock]; have < need {
+				out.Reqs = append(out.Reqs, lockReq{Lock: lock, Mode: need, Have: have, Field: fkey, Access: access, In: fname(fn), Where: e.w.PosOf(ins), Chain: []string{fname(fn)}, Local: have > modeNone})
+			}
+			return
+		}
+	}
 	var g *guardSpec
 	var fkey, access string
 	var where ssa.Instruction = ins
@@ -908,6 +925,9 @@ func (e *locksetEngine) checkAccess(fn *ssa.Function, ins ssa.Instruction, st *f
 	}
 	e.accesses++
 	e.seenAccess[fkey+"|"+access+"|"+fname(fn)] = e.w.PosOf(where)
+	if g == nil {
+		return
+	}
 	if g.Lock == "" {
 		// declared unguarded: every access outside package init is reported
 		out.Reqs = append(out.Reqs, lockReq{Lock: "<none>." + fkey, Mode: modeW, Field: fkey, Access: access, In: fname(fn), Where: e.w.PosOf(where), Chain: []string{fname(fn)}, Local: true})
